@@ -346,9 +346,28 @@ def generate(cfg="A", builddir=None, outpath=None):
                 f.write(_c.stub("ScpiVerif.Gen.FifoC", failed["fifo_c"]))
         except Exception:
             pass
-    return {"changed": old != text or fifo_c.get("changed", False), "path": outpath, "failed": failed,
+    # C -> Lean translation of the response framing functions and of SCPI_Input of parser.c (Gen/ResultC.lean, Gen/InputC.lean;
+    # translate/c2lean_parser.py), same treatment: one section each, a refusal is recorded and never disturbs the others
+    parser_c = {}
+    for _sec in ("result_c", "input_c"):
+        try:
+            import c2lean_parser
+            parser_c[_sec] = c2lean_parser.generate(_sec, os.path.dirname(outpath))
+            if parser_c[_sec]["failed"]:
+                failed[_sec] = "; ".join("%s: %s" % kv for kv in sorted(parser_c[_sec]["failed"].items()))[:400]
+        except Exception as e:
+            failed[_sec] = ("c2lean_parser: %s: %s" % (type(e).__name__, e))[:400]
+            try:
+                import c2lean as _c, c2lean_parser as _p
+                with open(os.path.join(os.path.dirname(outpath), _p.SECTIONS[_sec]["file"]), "w") as f:
+                    f.write(_c.stub(_p.SECTIONS[_sec]["namespace"], failed[_sec]))
+            except Exception:
+                pass
+    return {"changed": old != text or fifo_c.get("changed", False) or any(v.get("changed") for v in parser_c.values()), "path": outpath, "failed": failed,
             "rows": {"errclass": len(errclass), "errdesc": len(errdesc), "units": len(unit_rows), "special": len(special),
-                     "fifo_c_functions": len(fifo_c.get("functions", []))}}
+                     "fifo_c_functions": len(fifo_c.get("functions", [])),
+                     "result_c_functions": len(parser_c.get("result_c", {}).get("functions", [])),
+                     "input_c_functions": len(parser_c.get("input_c", {}).get("functions", []))}}
 
 if __name__ == "__main__":
     cfg = sys.argv[1] if len(sys.argv) > 1 else "A"
